@@ -224,7 +224,11 @@ pub fn gen_step(s: &mut Pool2, rng: &mut Rng, ctx: &mut Ctx) -> Step {
                 (None, ms)
             };
             let to = if rng.chance(1, 6) { Some(rng.idx(s.cfg.n_users)) } else { None };
-            Op::Swap { side, amount, belief, max_spread, to }
+            if s.cfg.kinds[side] == Kind::Native && rng.chance(1, 12) {
+                Op::SwapWithStrayCoin { side, amount, stray: *rng.pick(&[1u128, 7, 1000, 999_999]), first: rng.chance(2, 3) }
+            } else {
+                Op::Swap { side, amount, belief, max_spread, to }
+            }
         }
         3 => Op::Collect,
         4 if rng.chance(1, 4) => Op::SetCollector { second: rng.chance(1, 2), to_pool: rng.chance(1, 4), to_user: if rng.chance(1, 3) { Some(rng.idx(5)) } else { None } },
@@ -408,6 +412,11 @@ pub fn simplify(step: &Step) -> Vec<Step> {
         Op::SetFees { fees } => {
             if fees.iter().any(|f| f != "0") {
                 push(Op::SetFees { fees: ["0".into(), "0".into(), "0".into()] }, step.adv, step.fault);
+            }
+        }
+        Op::SwapWithStrayCoin { side, amount, stray, first } => {
+            for a in shr(*amount) {
+                push(Op::SwapWithStrayCoin { side: *side, amount: a, stray: *stray, first: *first }, step.adv, step.fault);
             }
         }
         Op::Collect | Op::WithdrawDirect { .. } | Op::SetCollector { .. } => {}
